@@ -233,12 +233,17 @@ TCancel ==
 
 (* environment and scheduler steps are imposed by the driver: no observation *)
 TEnv ==
-  /\ dr' = FALSE
-  /\ \/ Ev.act = "EditSource" /\ EditSource(Ev.f)
-     \/ Ev.act = "DeleteOutput" /\ DeleteOutput(Ev.f)
-     \/ Ev.act = "EditSpec" /\ EditSpec(Ev.t)
-     \/ Ev.act = "SetUseHash" /\ SetUseHash(Ev.v)
-  /\ Judge({})
+  /\ Ev.act \in {"EditSource", "DeleteOutput", "EditSpec", "SetUseHash"}
+  /\ IF \/ Ev.act = "EditSource" /\ ~(Ev.f \in Unresolved(W3) /\ fs[Ev.f] # Missing)
+        \/ Ev.act = "DeleteOutput" /\ ~(Ev.f \in AllOut(W3) /\ fs[Ev.f] # Missing)
+        \/ Ev.act = "SetUseHash" /\ Ev.v = useHash
+     THEN Stuck("C00_env_inapplicable")
+     ELSE /\ dr' = FALSE
+          /\ \/ Ev.act = "EditSource" /\ EditSource(Ev.f)
+             \/ Ev.act = "DeleteOutput" /\ DeleteOutput(Ev.f)
+             \/ Ev.act = "EditSpec" /\ EditSpec(Ev.t)
+             \/ Ev.act = "SetUseHash" /\ SetUseHash(Ev.v)
+          /\ Judge({})
 
 TSched ==
   /\ Ev.act \in {"JobStart", "JobEnd", "Purge", "JobInherit"} /\ dr' = dr
